@@ -49,7 +49,13 @@ TABLE = [
 
 def gen(chk, mpmath, rng):
     mp = mpmath.mp
-    for item in sf.samereal(chk, mpmath, rng, TABLE, 8, chk.pick(260, 12000), PROP):
+    for k in [k for k in chk.known if k.get("status") == "known" and "rep" in k]:
+        rep = k["rep"]; p = rep["p"]
+        x = Fr(rep["x"])
+        mp.prec = p; X = sf.q2m(mp, x); y1 = getattr(mp, rep["f"])(X)
+        mp.prec = 2 * p + 40; y2 = getattr(mp, rep["f"])(X); mp.prec = p
+        yield sf.close(y1, y2, 8, p), {"pinned": k["key"], "key": "samereal/%s/p>=600" % rep["f"], "f": rep["f"], "args": [rep["x"]], "p": p, "what": "pinned representative"}
+    for item in sf.samereal(chk, mpmath, rng, TABLE, 8, chk.pick(300, 12000), PROP, hiprec=0.2):
         yield item
     for i in range(chk.pick(260, 8000)):
         p = rng.choice([20, 53, 53, 100, 200]); mp.prec = p
